@@ -28,6 +28,9 @@ import (
 var (
 	verifDir = envOr("VERIF_DIR", "/verif")
 	repoDir  = envOr("VERIF_REPO", "/repo")
+	// outDir receives evidence/ and replays/. Only experiments (sensitivity sweeps against scratch worktrees,
+	// VERIF_REPO set) point it elsewhere; the registered commands use the defaults.
+	outDir = envOr("VERIF_OUTDIR", envOr("VERIF_DIR", "/verif"))
 	goBin    = envOr("VERIF_GO", "go1.26.8")
 )
 
@@ -71,7 +74,20 @@ func build() (scratch, worker string) {
 	ov := filepath.Join(scratch, "ov")
 	run(simDir, inst, "-repo", repoDir, "-shims", filepath.Join(simDir, "shims"), "-out", ov)
 	worker = filepath.Join(scratch, "worker.test")
-	run(simDir, goBin, "test", "-c", "-vet=off", "-overlay", filepath.Join(ov, "overlay.json"), "-o", worker, "./harness")
+	args := []string{"test", "-c", "-vet=off", "-overlay", filepath.Join(ov, "overlay.json"), "-o", worker}
+	if repoDir != "/repo" {
+		// experiments against a scratch worktree: same module file with the replace directive redirected
+		mod, err := os.ReadFile(filepath.Join(simDir, "go.mod"))
+		if err != nil {
+			die(2, "go.mod: %v", err)
+		}
+		sum, _ := os.ReadFile(filepath.Join(simDir, "go.sum"))
+		mod = []byte(strings.Replace(string(mod), "=> /repo", "=> "+repoDir, 1))
+		os.WriteFile(filepath.Join(scratch, "go.mod"), mod, 0o644)
+		os.WriteFile(filepath.Join(scratch, "go.sum"), sum, 0o644)
+		args = append(args, "-modfile", filepath.Join(scratch, "go.mod"))
+	}
+	run(simDir, goBin, append(args, "./harness")...)
 	return scratch, worker
 }
 
@@ -214,9 +230,9 @@ func check(args []string) int {
 	defer os.RemoveAll(scratch)
 	buildS := time.Since(start).Seconds()
 
-	replayDir := filepath.Join(verifDir, "replays")
+	replayDir := filepath.Join(outDir, "replays")
 	os.MkdirAll(replayDir, 0o755)
-	os.MkdirAll(filepath.Join(verifDir, "evidence"), 0o755)
+	os.MkdirAll(filepath.Join(outDir, "evidence"), 0o755)
 	knownPath := envOr("VERIF_KNOWN_FILE", filepath.Join(verifDir, "known_findings.json"))
 
 	results := make([]*WorkerResult, *workers)
@@ -482,7 +498,7 @@ func check(args []string) int {
 	}
 	ev["coverage"] = cov
 	b, _ := json.MarshalIndent(ev, "", " ")
-	evPath := filepath.Join(verifDir, "evidence", id+".json")
+	evPath := filepath.Join(outDir, "evidence", id+".json")
 	if err := os.WriteFile(evPath, b, 0o644); err != nil {
 		die(2, "cannot write evidence: %v", err)
 	}
